@@ -146,6 +146,8 @@ type Interp struct {
 	ts        threadState
 	mlocks    map[string]*lockState
 	condGen   map[string]int
+	condWaiters  map[string][]int
+	condReleased map[string]map[int]bool
 	wgCount   map[string]int
 	asmMulHi  string // non-empty: MULQ's high word is this uninterpreted function (asm_amd64.go)
 	asmMulLo  string // non-empty: low product words are this uninterpreted function
